@@ -216,12 +216,16 @@ class C32(Property):
                             'pred': gm.comp_path(s), 'succ': gm.comp_path(t), 'exec': ex}
             outs, ins = gm.exact_state(md)
             scale = 1.0
+            # rounding of a polynomial evaluated in doubles is relative to the largest value that
+            # enters it, not to the (possibly cancelling) result: per variable, the tolerance is
+            # relative to the largest magnitude anywhere in the exact state
+            big = max([1.0] + [abs(float(b)) for v in outs.values() for b in v])
             for k, v in outs.items():
                 got = impl['outs'][k]
                 for a, b in zip(got, v):
                     b = float(b)
                     scale = max(scale, abs(b))
-                    if abs(a - b) > RTOL * max(1.0, abs(b)):
+                    if abs(a - b) > RTOL * max(1.0, abs(b)) and abs(a - b) > 1e-13 * big:
                         return {'what': 'output after one run_model differs from the exact solution',
                                 'var': k, 'got': got, 'expected': [float(x) for x in v]}
             if impl['max_resid'] > RTOL * scale:
@@ -302,12 +306,14 @@ class C32(Property):
             spec = gm.flat_spec(md)
             off, aoff, n = gm.flat_layout(md)
             u = [float(unrat(x)) for x in a['u']]
+            big = max([1.0] + [abs(x) for x in u])      # see the oracle: rounding is relative to this
             for ci, c in enumerate(md['comps']):
                 for od in c['outs']:
                     s = off[(ci, od['name'])]
                     got = impl['outs'][gm.comp_path(c) + '.' + od['name']]
                     for k, g in enumerate(got):
-                        if abs(g - u[s + k]) > RTOL * max(1.0, abs(u[s + k])):
+                        if abs(g - u[s + k]) > RTOL * max(1.0, abs(u[s + k])) and \
+                                abs(g - u[s + k]) > 1e-13 * big:
                             return 'output %s: implementation %s, model %s' % (
                                 od['name'], got, u[s:s + len(got)])
         return None
